@@ -120,6 +120,12 @@ class MediaQuery(cssutils.util._NewBase):  # cssutils.util.Base):
             Sequence(
                 PreDef.char(name='colon', char=':'),
                 cssutils.css.value.MediaQueryValueProd(self),
+                # a ratio: expr has the operator /
+                Sequence(
+                    PreDef.char(name='slash', char='/'),
+                    cssutils.css.value.MediaQueryValueProd(self),
+                    minmax=lambda: (0, 1),
+                ),
                 minmax=lambda: (0, 1),  # optional
             ),
             PreDef.char(
